@@ -8,6 +8,7 @@ from .. import AnalysisError
 from ..cfg import describe_path, no_exc
 from ..effects import CONST, FRESH, SELF, Eff
 from ..program import ClassInfo, FuncInfo, Unit, ancestors, enclosing_stmt, norm, walk_local
+from .common import analysis_owned_solver_object
 
 EXPLANATION = (
     "Decided for every analysis entry point (the exported functions and classes of cobra.flux_analysis, "
@@ -64,11 +65,7 @@ EXTRA_ENTRIES = [
     ("cobra.core.solution", "get_solution"),
 ]
 # one named construct each, with the reason (reproduced benign)
-FROZEN_EXCEPTIONS = {
-    ("flux_analysis.fastcc._flip_coefficients", "const.set_linear_coefficients({k: -v for k, v in coefs.items() if k is not var})"):
-        "the constraint is looked up by the name template of the constraints _find_sparse_mode created (and "
-        "added reversibly) inside the same `with model` region of fastcc; it disappears with that region",
-}
+FROZEN_EXCEPTIONS: Dict[Tuple[str, str], str] = {}
 MODEL_CELL_OWNERS = {"Model", "Reaction", "Metabolite", "Gene", "Species", "Group", "Object", "GPR", "DictList"}
 SOLVER_CELL_PREFIXES = ("solver.", "var.", "cons.", "obj.", "config", "OModel", "OVar", "OCons", "OObj", "OConfig")
 
@@ -150,6 +147,8 @@ def run(ctx) -> None:
             key = (e.fn.qualname.replace("cobra.", "", 1), norm(enclosing_stmt(e.node)))
             if key in FROZEN_EXCEPTIONS:
                 continue
+            if analysis_owned_solver_object(e.fn, e.recv):
+                continue  # a row/column the analysis added itself (literal-prefixed name), inside its own context
             reported.setdefault(key, []).append(fn.short)
             origin_eff.setdefault(key, e)
             any_new = True
